@@ -32,5 +32,5 @@ WordRow(off, w, withData) ==
 RECURSIVE WordRows(_, _, _, _, _)
 WordRows(ws, i, pktOff, df, withData) ==
    IF i > Len(ws) THEN << >> ELSE WordRow(WordOffset(pktOff, df, i - 1), ws[i], withData) \o WordRows(ws, i + 1, pktOff, df, withData)
-PacketRows(off, r, payload, withData) == << RdhRow(off, r) >> \o WordRows(Cut(payload), 1, off, DataFormat(r), withData)
+PacketRows(off, r, payload, withData) == << RdhRow(off, r) >> \o WordRows(Cut(DataFormat(r), payload), 1, off, DataFormat(r), withData)
 ================================================================================
